@@ -134,3 +134,10 @@ Theorem C10_coll_replace_unm_frozen :
   forall (trim is_set : bool) (old tested : list Z), CollReplace.coll_replace true trim is_set old tested = CollReplace.NoChange.
 Proof. exact CollReplaceProofs.unm_frozen. Qed.
 Print Assumptions C10_coll_replace_unm_frozen.
+
+(* a user-controlled part of a snapshot that is evaluated again always holds the value of ITS expression at the latest evaluation (Model/ReEval.v) *)
+From V Require Model.ReEval Proofs.ReEvalProofs.
+Theorem C10_reeval_refreshes_unmanaged :
+  forall (s : ReEval.st) (v : ReEval.vt) (s' : ReEval.st), ReEval.re_eval s v = Some s' -> ReEval.plain s' = v.
+Proof. exact ReEvalProofs.re_eval_plain. Qed.
+Print Assumptions C10_reeval_refreshes_unmanaged.
